@@ -183,7 +183,7 @@ def classify(M, words, observed_set, wb):
     return 'candidates-differ'
 
 
-def check_grammar(stmts, ledger, r, budget, acc, origin):
+def check_grammar(stmts, ledger, r, budget, acc, origin, walks=()):
     text, _, _ = gast.print_grammar(stmts)
     rc, out, err = comp.compile_text(text, 'bash')
     if rc != 0:
@@ -197,7 +197,8 @@ def check_grammar(stmts, ledger, r, budget, acc, origin):
             acc.count('excluded: ' + e)
         return
     vocab = sorted({x[1] for st in stmts for x in gast.walk(st[2] if st[0] == 'call' else st[3]) if x[0] == 'lit'})
-    queries = make_queries(M, r, budget, vocab)
+    queries = [{'words': ['cmd'] + list(w), 'cword': len(w), 'wb': r.choice([bashrun.wordbreaks(), ''])} for w in walks]
+    queries += make_queries(M, r, max(0, budget - len(queries)), vocab)
     if not queries:
         return
     res = bashrun.run_session(out.decode('utf-8'), 'cmd', queries)
@@ -336,6 +337,42 @@ def shared_definition_grammar(r, ledger):
     return stmts
 
 
+def same_text_at_several_points_grammar(r):
+    """One literal text expected at several points with a different description (or none) at each: one text,
+    several literal ids; each occurrence must be read as the literal expected *there*.  -> (stmts, walks)"""
+    from ..gast import lit, seq, alt, opt, many, call
+    shared = r.choice(['run', 'go', 'x', 'list'])
+    n = r.randint(2, 4)
+    descrs = r.sample(['in the foreground', 'stop it', 'third meaning', 'again', None], n)
+    heads = r.sample(['start', 'stop', 'zap', 'hold', 'quit'], n)
+    branches, walks = [], []
+    for i in range(n):
+        tail = lit('t%d' % i)
+        k = r.random()
+        if k < 0.6:
+            b = seq(lit(heads[i]), lit(shared, descrs[i]), tail)
+            walks.append([heads[i], shared, ''])
+            walks.append([heads[i], shared, 't'])
+            walks.append([heads[i], shared, 't%d' % i, ''])
+        elif k < 0.8:
+            b = seq(lit(heads[i]), opt(lit('mid%d' % i)), lit(shared, descrs[i]), tail)
+            walks.append([heads[i], 'mid%d' % i, shared, ''])
+            walks.append([heads[i], shared, ''])
+        else:
+            b = seq(lit(heads[i]), many(alt(lit(shared, descrs[i]), lit('o%d' % i))), tail)
+            walks.append([heads[i], shared, ''])
+            walks.append([heads[i], 'o%d' % i, shared, shared, ''])
+        walks.append([heads[i], shared[:1]])
+        branches.append(b)
+    r.shuffle(branches)
+    if r.random() < 0.5:
+        stmts = [call('cmd', b) for b in branches]
+    else:
+        stmts = [call('cmd', alt(*branches))]
+    r.shuffle(walks)
+    return stmts, walks[:12]
+
+
 def make_jobs(tier, seed):
     n = 64 if tier == 'quick' else 420
     return [('rand', seed * 1000003 + i, 1, 32 if tier == 'quick' else 40) for i in range(n)]
@@ -352,6 +389,10 @@ def run_job(job, acc):
             stmts = shared_definition_grammar(r, ledger)
             acc.count('shared_definition_grammars')
             check_grammar(stmts, ledger, r, budget // 2, acc, 'definition shared by || branches seed=%d #%d' % (s, i))
+    if s % 4 == 3:
+        stmts, walks = same_text_at_several_points_grammar(r)
+        acc.count('same_text_at_several_points_grammars')
+        check_grammar(stmts, CmdLedger(), r, 16, acc, 'one text, several descriptions seed=%d' % s, walks=walks)
     for i in range(count):
         ledger = CmdLedger()
         stmts = profile_grammar(r, ledger)
